@@ -149,6 +149,7 @@ private:
 
                 if( isdigit( ch ))
                 {
+                    io_error_if( k + 1 >= sizeof( _text_buffer ), "Number in ASCII PNM data is too long." );
                     _text_buffer[ k++ ] = static_cast< char >( ch );
                 }
                 else if( k )
